@@ -164,25 +164,18 @@ impl PatchHeader {
 
     /// Set the description of the patch.
     pub fn set_description(&mut self, description: &str) {
-        if let Some(subject) = self.0.get("Subject") {
-            // Replace the first line with ours
-            let new = format!(
-                "{}\n{}",
-                description,
-                subject.split_once('\n').map(|x| x.1).unwrap_or("")
-            );
-            self.0.set("Subject", new.as_str());
-        } else if let Some(description) = self.0.get("Description") {
-            // Replace the first line with ours
-            let new = format!(
-                "{}\n{}",
-                description.split_once('\n').map(|x| x.1).unwrap_or(""),
-                description
-            );
-            self.0.set("Description", new.as_str());
+        // Replace the first line of the field that holds the description, keeping the long
+        // description
+        let (field, old) = if let Some(subject) = self.0.get("Subject") {
+            ("Subject", Some(subject))
         } else {
-            self.0.set("Description", description);
-        }
+            ("Description", self.0.get("Description"))
+        };
+        let new = match old.as_deref().and_then(|s| s.split_once('\n')) {
+            Some((_, rest)) => format!("{}\n{}", description, rest),
+            None => description.to_string(),
+        };
+        self.0.set(field, new.as_str());
     }
 
     /// Get the long description of the patch.
